@@ -697,6 +697,10 @@ func (ref *Node) DoNewObject(t reflect.Type, m meta.Definition, insideList bool)
 		switch x := m.(type) {
 		case *meta.List:
 			keyMeta := x.KeyMeta()
+			if len(keyMeta) != 1 && !insideList {
+				// a map holds an item under one key value: several key leaves, or none, need a slice
+				return reflect.ValueOf(make([]interface{}, 0)), nil
+			}
 			// an item inside the list is a container, only the list itself is keyed
 			if len(keyMeta) == 1 && !insideList {
 				// support some common key types, but anything too unusual should have
